@@ -21,6 +21,9 @@ CHECKS = {
  'C04': ('exploration',
          "Held on the executions explored: fork/join shapes (all/N/one, nested, fed through on-error/on-complete/non-firing guards, dead chains longer than the engine's search depth, dead cycles) and requires-graphs with the asynchronous branch results held by the harness and delivered in every order (k! for small k) under several transaction orders; monitors: join leaves WAITING only with the required number of committed routed inbound completions, one execution and one start per join and run, no join WAITING forever, reverse tasks start only after their requires succeeded and only inside the target's closure.",
          "runtime monitoring: join-start / requires trace monitors over per-commit row diffs, with harness-controlled completion orders of asynchronous branches"),
+ 'C05': ('exploration',
+         "Held (up to the two listed known findings) on the executions explored: random fork/join DAGs of 3..9 tasks with publish / publish-on-error / transition-level branch and global publishes of values unique to their publisher (scalars, lists, dictionaries with publisher-specific keys, nested, empty), literal / YAQL / Jinja, fallbacks in input / vars / environment, some tasks attempting to mutate what they see through Jinja method calls; each program under several id orders (seeded uuids) and unit orders; oracle: every variable a task's action receives and every output variable is exactly the value of a causally maximal publisher among the ancestors (fallback if none; concurrent publishers for globals), stored in_context / published / input columns change only in the commits that legitimately write them, evaluate_recursively leaves its context argument unchanged (icontract).",
+         "runtime monitoring: causal-order oracle over recorded ACTION_RUN inputs with unique published values + per-commit column-stability monitor + runtime contract (icontract) on evaluate_recursively"),
  'C06': ('fault_enumeration',
          "Held on the fault sequences enumerated: for each recorded message of a base run a copy is delivered at later unit boundaries of the identical schedule (start_task, on_action_complete incl. sub-workflow results, start_workflow with id), run_action is redelivered with/without losing the original x safe-rerun; oracle: normal form and row counts equal to the duplicate-free run, run-once and accepted-once counters.",
          "runtime monitoring: offline comparison of recorded histories (duplicate-free vs duplicated run) + exactly-once counters over ACTION_RUN / RPC_SEND events under message duplication at every position"),
@@ -67,7 +70,8 @@ CHECKS = {
          "Held on the fault sequences enumerated: silent / answered / asynchronous actions in forked workflows, heartbeats for subsets, real handle_expired_actions passes with the virtual clock at threshold-1 / threshold / threshold+1 / far beyond (after the last heartbeat or the first-heartbeat grace) in every order relative to late genuine results, settings incl. disabled; oracle: age >= threshold+1 must be failed with the heartbeat error, age <= threshold-1 must not, asynchronous / fresh / finished never, task and workflow follow their error handling, late results change no row; a stuck task manufactured by losing exactly one hand-off (with-items completion job, child->parent result) is completed exactly once by the engine's own integrity job so that the run equals the loss-free run, nothing scheduled with a negative delay.",
          "runtime monitoring: expiry-predicate monitor over action rows before/after each real checker pass on the virtual clock + metamorphic equality with the loss-free run after single hand-off loss"),
 }
-NOTES = {'C09': "Trusted base: the evaluator in mvf/checks/c09.py (resolution order and outcome composition written from the documentation), harness transport for sub-workflow start messages. Known finding (open): undeclared input named like an EngineClient.start_workflow argument with start_subworkflows_via_rpc leaves the calling task RUNNING.",
+NOTES = {'C05': "Trusted base: the generator's own edge list as the causal order (every edge fires by construction, checked: every task ran exactly once), unique published values. Known findings (open): Jinja method calls mutate stored context objects; dictionaries meeting at a join are combined key by key so keys of an older dictionary survive.",
+         'C09': "Trusted base: the evaluator in mvf/checks/c09.py (resolution order and outcome composition written from the documentation), harness transport for sub-workflow start messages. Known finding (open): undeclared input named like an EngineClient.start_workflow argument with start_subworkflows_via_rpc leaves the calling task RUNNING.",
          'C15': "Trusted base: fixtures created through services / DB API, identity from context / headers (authentication stubbed). Heartbeat reports and the engine-internal compare-and-swap functions are not tenant-facing and are excluded (see the evidence assumptions).",
          'C16': "Trusted base: authentication stubbed (identity from X-Project-Id / X-Roles headers), engine replaced by a recording stub answering from the database, request templates written by hand and cross-checked against the walked controller tree.",
          'C17': "Trusted base: recording stub instead of the engine client, keystone trusts stubbed at the boundary (authentication on), virtual clock, croniter for the pattern oracle. Known finding (open): occurrence lost when a processor dies between advancing the trigger and starting the workflow.",
